@@ -11,8 +11,8 @@ supplied"; since that edits a source file, differences there are counted, not re
 
 Oracle: for every run that ends without an injected hard fault, the object bytes, the exit
 status and the diagnostic output (timing fragments masked) equal those of the reference run.
-From the event log: the object is written by exactly one truncating open followed by writes
-that add up to the reference length.
+From the event log (counted, not binding - it is mechanism, not result): the object is written by
+exactly one truncating open followed by writes that add up to its length.
 """
 
 import json
@@ -459,12 +459,16 @@ def differences(ref, got, import_permuted, ref_invalid):
         d.append("diagnostics")
     if ref["stderr"] != got["stderr"]:
         d.append("stderr")
-    if got["exit"] == 0 and got["obj"] is not None:
-        if got["obj_opens"] != 1:
-            d.append("object-not-written-by-one-truncating-open")
-        elif got["obj_written"] != len(got["obj"]):
-            d.append("object-write-total")
     return d
+
+
+def write_pattern_unexpected(got):
+    """Not binding: *how* the object reaches the disk is mechanism, not result (writing a
+    temporary file and renaming it would be just as good). Counted in evidence: on this tree
+    every object is written by one truncating open and writes that add up to its length."""
+    if got["exit"] == 0 and got["obj"] is not None:
+        return got["obj_opens"] != 1 or got["obj_written"] != len(got["obj"])
+    return False
 
 
 def diff_offsets(a, b, limit=40):
@@ -548,6 +552,8 @@ def task(t):
         if d == ["timeout"]:
             got, fired = run_case(bx, files, entry, w, hist, permuted)
             d = differences(ref, got, permuted is not None, ref_invalid)
+        if write_pattern_unexpected(got):
+            r["write_pattern_unexpected"] = r.get("write_pattern_unexpected", 0) + 1
         if d and permuted is not None:
             # Not binding. The CLI takes one file, so the only way to "supply the files in a
             # different order" is to edit the entry file's import declarations - and then the
@@ -726,6 +732,8 @@ def main(tier, seed, replay_path=None):
         "hash_seeds_tried": sum(r["hashseeds"] for r in results),
         "world_dimension_use": dims,
         "history_kinds": hists,
+        "object_not_written_by_one_truncating_open_nonbinding": sum(
+            r.get("write_pattern_unexpected", 0) for r in results),
         "import_order_variants": sum(r["import_perms"] for r in results),
         "import_order_variants_that_differ_nonbinding": sum(r.get("import_order_differences", 0) for r in results),
         "injected_actions_fired": fired,
